@@ -668,7 +668,7 @@ var errCodes = []struct {
 	{"duplicate label", 1}, {"function ends with label", 2}, {"no label for branch", 3}, {"unknown label", 4},
 	{"unknown register family", 20}, {"no allocatable registers", 21}, {"impossible register allocation", 22},
 	{"failed to allocate registers", 23}, {"disagreement on overlapping", 24}, {"non physical register", 25},
-	{"NOFRAME function clobbers", 26}, {"missing base register", 30}, {"index register with scale 0", 31},
+	{"NOFRAME function clobbers", 26}, {"r32 operand should satisfy", 27}, {"missing base register", 30}, {"index register with scale 0", 31},
 }
 
 func errCode(err error) int {
